@@ -50,6 +50,113 @@ theorem C23_apply (db : Db) (s : Sess) (h : Coherent db s) (L : List Load) (prog
     | cons l rest ih => exact ih _ (coh_applyLoad h l)
   rw [C23_observe db _ _ hL, C23_observe db _ _ h]
 
+/-! ### Pony's concrete loaders -/
+
+/-- every concrete loader — full rows of an object and the other seeds of its entity (`Entity._load_`, `_load_many_`, `_prefetch_load_all_`,
+    `_fetch_objects` of a query), a lazy attribute (`Attribute.load`), a one-to-many collection for one owner or an nplus1 / prefetch batch
+    of owners, a many-to-many collection likewise — is a sequence of copying primitives, so it keeps the session coherent -/
+theorem C23_loader_preserves (db : Db) (sch : Schema) (s : Sess) (h : Coherent db s) (l : Loader) : Coherent db (applyLoader db sch s l) :=
+  coh_applyLoader sch h l
+
+/-- MAIN, with the concrete loaders: for every database, mapping, coherent session and EVERY program of reads with concrete loaders
+    interleaved anywhere, the VALUES answered are the database's — only whether a read is served from the session or has to load differs -/
+theorem C23_loaders_observe (db : Db) (sch : Schema) (steps : List LStep) :
+    ∀ s, Coherent db s → (lrun db sch s steps).map (·.1) = (lreads steps).map (dbAnswer db) := by
+  induction steps with
+  | nil => intro s _; rfl
+  | cons st rest ih =>
+    intro s h
+    cases st with
+    | read r =>
+      obtain ⟨h1, h2⟩ := read_correct h r
+      simp only [lrun, lreads, List.map_cons, h1]
+      rw [ih _ h2]
+    | load l =>
+      simp only [lrun, lreads]
+      exact ih _ (coh_applyLoader sch h l)
+
+/-- two programs with the same reads and ANY concrete loaders (eager rows, seed batches, lazy loads, prefetched or batch-loaded
+    collections) observe the same values from a fresh session -/
+theorem C23_strategies (db : Db) (sch : Schema) (p p' : List LStep) (hsame : lreads p = lreads p') :
+    (lrun db sch Sess.init p).map (·.1) = (lrun db sch Sess.init p').map (·.1) := by
+  rw [C23_loaders_observe db sch p _ (coh_init db), C23_loaders_observe db sch p' _ (coh_init db), hsame]
+
+/-- what a row loader establishes: afterwards every fetched attribute of every object of the batch is answered from the session
+    (no further query), whatever was loaded before -/
+theorem C23_rows_loaded (db : Db) (sch : Schema) (s : Sess) (os : List Oid) (o : Oid) (a : Attr) (ho : o ∈ os) (ha : a ∈ sch.rowAttrs o) :
+    (read db (applyLoader db sch s (.rows os)) (.attr o a)).2.2 = .cached := by
+  have hv : (applyLoader db sch s (.rows os)).vals o a ≠ none := by
+    apply vals_set_foldl db _ ((sch.rowAttrs o).map (fun a => (o, a))) o a
+    · simp only [expand, List.mem_flatten, List.mem_map]
+      exact ⟨rowLoads db sch o (sch.rowAttrs o), ⟨o, ho, rfl⟩, by simp [rowLoads]⟩
+    · exact List.mem_map.mpr ⟨a, ha, rfl⟩
+  simp only [Model.Loading.read]
+  cases hs : (applyLoader db sch s (.rows os)).vals o a with
+  | none => exact absurd hs hv
+  | some v => rfl
+
+/-- the same for a lazy attribute load -/
+theorem C23_lazy_loaded (db : Db) (sch : Schema) (s : Sess) (o : Oid) (a : Attr) :
+    (read db (applyLoader db sch s (.lazyAttr o a)) (.attr o a)).2.2 = .cached := by
+  have hv : (applyLoader db sch s (.lazyAttr o a)).vals o a ≠ none := by
+    apply vals_set_foldl db _ [(o, a)] o a
+    · simp [expand, rowLoads]
+    · simp
+  simp only [Model.Loading.read]
+  cases hs : (applyLoader db sch s (.lazyAttr o a)).vals o a with
+  | none => exact absurd hs hv
+  | some v => rfl
+
+/-- a fully loaded collection answers every collection read from the session -/
+theorem cached_of_full (db : Db) (s : Sess) (w : Oid) (c : Attr) (h : FullLoaded s w c) (i : Oid) :
+    (read db s (.isEmpty w c)).2.2 = .cached ∧ (read db s (.count w c)).2.2 = .cached ∧ (read db s (.contains w c i)).2.2 = .cached ∧
+    (read db s (.items w c)).2.2 = .cached ∧ (read db s (.len w c)).2.2 = .cached := by
+  obtain ⟨sd, h1, h2, h3⟩ := h
+  refine ⟨?_, ?_, ?_, ?_, ?_⟩
+  · simp [Model.Loading.read, h1, h2]
+  · cases hc : sd.count with
+    | none => exact absurd hc h3
+    | some n => simp [Model.Loading.read, h1, hc]
+  · simp only [Model.Loading.read, getSet, h1, Option.getD_some, h2]
+    by_cases hi : i ∈ sd.items <;> simp [hi]
+  · simp [Model.Loading.read, h1, h2]
+  · simp [Model.Loading.read, h1, h2]
+
+/-- what a collection loader establishes, for a one-to-many collection (single owner, nplus1 batch, prefetch batch) and for a many-to-many
+    one: afterwards is_empty / count / contains / iteration / len of EVERY owner of the batch are answered from the session -/
+theorem C23_collection_loaded (db : Db) (sch : Schema) (s : Sess) (owners : List Oid) (c : Attr) (w : Oid) (hw : w ∈ owners) (i : Oid) (m2m : Bool) :
+    let s' := applyLoader db sch s (if m2m then .collLinks owners c else .collRows owners c)
+    (read db s' (.isEmpty w c)).2.2 = .cached ∧ (read db s' (.count w c)).2.2 = .cached ∧ (read db s' (.contains w c i)).2.2 = .cached ∧
+    (read db s' (.items w c)).2.2 = .cached ∧ (read db s' (.len w c)).2.2 = .cached := by
+  intro s'
+  apply cached_of_full
+  cases m2m with
+  | true =>
+    apply full_set_foldl
+    simp only [if_true, expand, List.mem_flatten, List.mem_map]
+    exact ⟨_, ⟨w, hw, rfl⟩, List.mem_cons_self⟩
+  | false =>
+    apply full_set_foldl
+    simp only [Bool.false_eq_true, if_false, expand, List.mem_append, List.mem_map]
+    exact Or.inr ⟨w, hw, rfl⟩
+
+/-- in a database whose references and collections agree (foreign keys), the reverse side effect of loading a row adds exactly the
+    loaded object: `db_reverse_add` never has to be filtered -/
+theorem C23_reverse_add_exact (db : Db) (sch : Schema) (o : Oid) (a r : Attr) (t : Int)
+    (hwf : ∀ o a r t, sch.revColl a = some r → db.val o a = some t → o ∈ db.coll t.toNat r)
+    (hr : sch.revColl a = some r) (hv : db.val o a = some t) :
+    [o].filter (fun i => decide (i ∈ db.coll t.toNat r)) = [o] := by
+  simp [hwf o a r t hr hv]
+
+example :
+    let db : Db := { objs := [1, 2, 3], val := fun o a => if a = 0 then some (o : Int) else if a = 1 ∧ o ≠ 1 then some 1 else none,
+                     coll := fun o c => if o = 1 ∧ c = 5 then [2, 3] else [] }
+    let sch : Schema := { rowAttrs := fun _ => [0, 1], revColl := fun a => if a = 1 then some 5 else none, revOne := fun _ => none, revM2M := fun c => c }
+    lrun db sch Sess.init [.read (.isEmpty 1 5), .load (.rows [2]), .read (.contains 1 5 2), .read (.attr 2 0), .load (.collRows [1] 5),
+                           .read (.items 1 5), .read (.attr 3 1), .read (.count 1 5)]
+      = [(.bool false, .loaded), (.bool true, .cached), (.val (some 2), .cached), (.rows [2, 3], .cached), (.val (some 1), .cached), (.nat 2, .cached)] := by
+  decide
+
 /-- the hypotheses are satisfiable by a non-trivial state: after loading part of a collection and one attribute the
     session is coherent and non-empty, and the shortcut branches are taken -/
 example :
